@@ -7,6 +7,7 @@ import Gomacro.Drv.C16
 import Gomacro.Drv.C01
 import Gomacro.Drv.Sem
 import Gomacro.Drv.C15
+import Gomacro.Drv.C03
 /-! JSON-lines driver: one request object per line in, one reply per line out.
 Unknown ops are `bad-op`, never defaulted.  Core-only imports (links as an executable). -/
 open Lean Gomacro.Drv
@@ -25,7 +26,9 @@ def handlers : List (String × Handler) := [
   ("c16.query", c16Query),
   ("c01.idents", c01Idents),
   ("sem.encode", semEncode),
-  ("c15.judge", c15Judge)
+  ("c15.judge", c15Judge),
+  ("c03.gen", c03Gen),
+  ("c03.check", c03Check)
 ]
 
 def handleLine (line : String) : String :=
